@@ -151,4 +151,57 @@ def InbandData.ok (x : InbandData) : Prop :=
   'X' ∉ x.pre ∧ NUL ∉ x.pre ∧ NL ∉ x.pre
 
 
+/-! ### the `canc` repair: how the loop sees a canceled target -/
+
+theorem seen_rc (fx : Fixes) (h : Host) : (seen fx h).rc = h.rc := by
+  unfold seen; split <;> rfl
+
+theorem seen_of_not_canceled (fx : Fixes) (h : Host) (hc : h.state ≠ .canceled) : seen fx h = h := by
+  unfold seen; simp [hc]
+
+theorem seen_unrepaired (fx : Fixes) (hc : fx.canc = false) (h : Host) : seen fx h = h := by
+  unfold seen; simp [hc]
+
+theorem map_seen_of_no_canceled (fx : Fixes) (hs : List Host) (hc : ∀ h ∈ hs, h.state ≠ .canceled) :
+    hs.map (seen fx) = hs := by
+  induction hs with
+  | nil => rfl
+  | cons h t ih =>
+    rw [List.map_cons, seen_of_not_canceled fx h (hc h (by simp)), ih (fun x hx => hc x (by simp [hx]))]
+
+theorem map_seen_unrepaired (fx : Fixes) (hc : fx.canc = false) (hs : List Host) : hs.map (seen fx) = hs := by
+  induction hs with
+  | nil => rfl
+  | cons h t ih => rw [List.map_cons, seen_unrepaired fx hc h, ih]
+
+/-- with the repair, "not seen as failed" means DONE -/
+theorem seen_not_failed_iff (fx : Fixes) (hc : fx.canc = true) (h : Host) :
+    (seen fx h).state ≠ .failed ↔ h.state = .done := by
+  unfold seen
+  cases hs : h.state <;> simp [hc, hs]
+
+theorem faithful_not_canceled {o : Outcome} {h : Host} (hf : Faithful o h) : h.state ≠ .canceled := by
+  cases o with
+  | exited c => have : h = ⟨.done, c⟩ := hf; subst this; simp
+  | killed s => have := (show h.state = .done ∧ _ from hf).1; simp [this]
+  | connectFailed => have := (show h.state = .failed ∧ _ from hf).1; simp [this]
+  | timedOut => have := (show h.state = .failed ∧ _ from hf).1; simp [this]
+
+theorem allFaithful_not_canceled {outs : List Outcome} {hs : List Host} (hrel : AllFaithful outs hs) :
+    ∀ h ∈ hs, h.state ≠ .canceled := by
+  induction hrel with
+  | nil => intro h hh; simp at hh
+  | cons hoh _ ih =>
+    intro h hh
+    rcases List.mem_cons.mp hh with rfl | hin
+    · exact faithful_not_canceled hoh
+    · exact ih h hin
+
+/-- closed form of the loop started at 0 (repaired D8) -/
+theorem aggLoop_specAgg (fx : Fixes) (hd8 : fx.d8 = true) (l : List Host) : aggLoop fx 0 l = specAgg l := by
+  unfold specAgg maxRc
+  rw [aggLoop_fixed fx hd8]
+  have := maxRcFrom_ge 0 l
+  split <;> omega
+
 end PdshVerif.Dsh.Exit
